@@ -147,6 +147,19 @@ class Gen:
             self.emit('%s f1, %s, %s' % (r.choice(['fdiv', 'fmul', 'fsub']), r.choice(['1.0f', '5.0f']), r.choice(['4.0f', '2.0f', '3.0f'])))
             self.emit('f2d d2, f1')
             self.emit('dadd d0, d0, d2')
+        if r.random() < 0.4:     # long double: conversions, arithmetic with an immediate, compare
+            self.emit('d2ld l0, d0')
+            self.emit('%s l0, l0, %s' % (r.choice(['ldadd', 'ldsub', 'ldmul', 'lddiv']), r.choice(['1.0L', '2.5L', '4.0L', '0.5L'])))
+            self.emit('ldmov l1, l0')
+            self.emit('ldneg l1, l1')
+            self.emit('%s t9, l0, l1' % r.choice(['ldlt', 'ldge', 'ldeq', 'ldne']))
+            self.acc('t9')
+            self.emit('ld2d d2, l0')
+            self.emit('dadd d0, d0, d2')
+            self.emit('and t9, %s, 65535' % a)
+            self.emit('i2ld l1, t9')
+            self.emit('ld2i t9, l1')
+            self.acc('t9')
         self.emit('dmov d1, d0')
         c = r.random()
         if c < 0.3:
@@ -363,7 +376,7 @@ class Gen:
         self.emit('ret z')
         self.emit('endfunc')
         self.emit('func i64, i64:a, i64:b', 'entry')
-        self.emit('local i64:acc, i64:t0, i64:t1, i64:t2, i64:t3, i64:t7, i64:t8, i64:t9, i64:p0, i64:i1, i64:i2, d:d0, d:d1, d:d2, f:f0, f:f1')
+        self.emit('local i64:acc, i64:t0, i64:t1, i64:t2, i64:t3, i64:t7, i64:t8, i64:t9, i64:p0, i64:i1, i64:i2, d:d0, d:d1, d:d2, f:f0, f:f1, ld:l0, ld:l1')
         self.emit('mov acc, 7')
         self.emit('mov t0, a')
         self.emit('mov t1, b')
@@ -376,6 +389,8 @@ class Gen:
         self.emit('dmov d2, 0.5')
         self.emit('fmov f0, 1.0f')
         self.emit('fmov f1, 2.0f')
+        self.emit('ldmov l0, 1.0L')
+        self.emit('ldmov l1, 2.0L')
         # the reference item holds the address of another section
         self.emit('mov p0, ref0')
         self.emit('mov p0, p:(p0)')
